@@ -14,6 +14,9 @@ Clauses (one `Viol` constructor each):
   * `efun`      a command() call on a live object was not executed at once (command() is not turn-limited:
                 `ecmd` events never count for `twice`)
   * `outside`, `crash`, `malformed`  robustness of the trace itself
+An iteration of backend() that an uncaught LPC error leaves by longjmp ends with `abort n` instead of `end n`: `twice`
+is judged inside it, `starved` is not (the loop restarts at once, turns are granted again and the restarted cycle is
+judged in full; its `poll` must not block when somebody still has a complete command).
 A user who connects during a cycle is served from the next cycle on (documented protocol: turns are granted at the
 top of the cycle); a user whose client has closed or who was kicked/dropped is exempt from `starved`.
 -/
@@ -75,6 +78,8 @@ def structStep (s : SState) (e : Ev) : SState :=
     { s with served := u :: s.served, bad := b2 }
   | .endc n _ _ =>
     { cyc := none, served := [], bad := if s.cyc != some n then .malformed "end without begin" :: s.bad else s.bad }
+  | .abort n =>   -- an iteration left by an uncaught error ends here; the next `begin` opens a new cycle
+    { cyc := none, served := [], bad := if s.cyc != some n then .malformed "abort without begin" :: s.bad else s.bad }
   | .crash w => { s with bad := .crash w :: s.bad }
   | .other l => { s with bad := .malformed l :: s.bad }
   | _ => s
@@ -175,6 +180,9 @@ def judgeStep (s : JState) (e : Ev) : JState :=
   | .endc n _ _ =>
     let starved := s.ids.filter (fun u => (s.us.get u).eligible && live (s.us.get u) && !(s.us.get u).served)
     { s with bad := starved.map (fun u => Viol.starved u n) ++ s.bad, mustNotBlock := none }
+  | .abort _ =>   -- aborted iteration: nobody is owed service by it; the loop restarts at once and the snapshot of the
+                  -- next `begin` (taken before anything else can happen) owes it again
+    { s with mustNotBlock := none }
   | _ => s
 
 def judgeLive (trace : List Ev) : List Viol := (trace.foldl judgeStep {}).bad.reverse
